@@ -75,6 +75,9 @@ var c03Ctx = []string{
 	"{namespace b autoescape=\"true\"}\n/** @param x */\n{template .t}\n{call .u data=\"all\"/}\n{/template}\n",
 	// 9: in a message rendered through a translating (identity) catalogue, after a raw print of the same value
 	"{namespace a%NS}\n/** @param x */\n{template .t%TM}\n{msg desc=\"d\"}m{$x|noAutoescape}-%Pm{/msg}\n{/template}\n",
+	// 10, 11: after calls into templates of the same file with the opposite / an explicit mode (they print nothing)
+	"{namespace a%NS}\n/** @param x */\n{template .t%TM}\n{call .off data=\"all\"/}{let $y}{call .off data=\"all\"/}{/let}%P\n{/template}\n/** @param x */\n{template .off autoescape=\"false\"}\n{if false}{$x}{/if}\n{/template}\n",
+	"{namespace a%NS}\n/** @param x */\n{template .t%TM}\n{call .on data=\"all\"/}%P\n{/template}\n/** @param x */\n{template .on autoescape=\"true\"}\n{if false}{$x}{/if}\n{/template}\n",
 }
 
 const c03Callee = "{namespace b%NS}\n/** @param x */\n{template .u%TM}\n%P\n{/template}\n"
@@ -142,8 +145,8 @@ func H_decision(ns, tm, dir, ctx int) {
 	if ctx == 7 || ctx == 8 {
 		entry = "b.t"
 	}
-	if ctx == 9 {
-		tofu = verifMustCompile(c03Subst(c03Ctx[ctx], c03Modes[ns], c03Modes[tm], p))
+	if ctx >= 9 {
+		tofu = verifMustCompileNoCheck(c03Subst(c03Ctx[ctx], c03Modes[ns], c03Modes[tm], p))
 	} else if ctx == 8 {
 		// the callee's file is added first
 		tofu = verifMustCompile(c03Subst(c03Callee, c03Modes[ns], c03Modes[tm], p), c03Ctx[ctx])
